@@ -161,6 +161,11 @@ impl<T: Read + Write + ScmSocket> ClientConnection<T> {
     }
 
     fn write(&mut self) -> Result<()> {
+        // A closed connection is only kept until its in-flight requests have been answered;
+        // its pending output has been discarded, so there is nothing to write.
+        if self.state == ClientConnectionState::Closed {
+            return Ok(());
+        }
         // The stream is available for writing.
         match self.connection.try_write() {
             Err(ConnectionError::ConnectionClosed) | Err(ConnectionError::StreamWriteError(_)) => {
